@@ -455,6 +455,9 @@ func (s *JavaFullListener) EnterCreator(ctx *parser.CreatorContext) {
 		}
 
 		currentType = "CreatorClass"
+		// the methods of this anonymous class only: the table is package-level and was never emptied, so
+		// every anonymous class listed the methods of all anonymous classes analysed before it
+		creatorMethodMap = make(map[string]core_domain.CodeFunction)
 		text := ctx.CreatedName().GetText()
 		creatorNode := &core_domain.CodeDataStruct{
 			Package:       currentPkg,
